@@ -232,11 +232,19 @@ def symmetry_check(ctx, c, outs):
     from orix.quaternion import Orientation
     G1, G2 = groups()[c["k1"]], groups()[c["k2"]]
     s1, s2 = tuple(c["s1"]), tuple(c["s2"])
-    O1 = Orientation(np.array(c["q1"], float).reshape(s1 + (4,)), symmetry=G1)
-    O2 = Orientation(np.array(c["q2"], float).reshape(s2 + (4,)), symmetry=G2)
+    dt = c.get("dtype", "float64")         # single-precision input arrays: the objects hold unit quaternions all the same
+    O1 = Orientation(np.array(c["q1"], float).reshape(s1 + (4,)).astype(dt), symmetry=G1)
+    O2 = Orientation(np.array(c["q2"], float).reshape(s2 + (4,)).astype(dt), symmetry=G2)
     with warnings.catch_warnings():
         warnings.simplefilter("ignore")
         eager = O1.angle_with_outer(O2)
+        if dt != "float64" and len(s1) == 1:
+            # an orientation and itself: zero angle on every path, whatever precision the input array had
+            for lz in (False, True):
+                dm = O1.get_distance_matrix(lazy=lz, chunk_size=2, progressbar=False) if lz else O1.get_distance_matrix()
+                if np.abs(np.diag(dm)).max() > 2e-6:
+                    return (f"get_distance_matrix(lazy={lz}) of orientations given as a {dt} array has {np.abs(np.diag(dm)).max():.3e} "
+                            f"rad on its diagonal ({G1.name})")
         for ch in c["chunks"]:
             lz = O1.angle_with_outer(O2, lazy=True, chunk_size=ch, progressbar=False)
             if lz.shape != eager.shape:
@@ -361,7 +369,7 @@ def generate(ctx):
         k1 = small[rng.integers(len(small))]
         k2 = k1 if r % 2 == 0 else small[rng.integers(len(small))]
         s1, s2 = SHAPES[rng.integers(len(SHAPES) - 1)], SHAPES[rng.integers(len(SHAPES) - 1)]
-        c = {"k1": k1, "k2": k2, "s1": list(s1), "s2": list(s2),
+        c = {"k1": k1, "k2": k2, "s1": list(s1), "s2": list(s2), "dtype": ["float64", "float32", "float64"][r % 3],
              "q1": [GQ.unit_quat(rng)[0] for _ in range(int(np.prod(s1)))],
              "q2": [GQ.unit_quat(rng)[0] for _ in range(int(np.prod(s2)))],
              "chunks": [int(x) for x in rng.choice(CHUNKS, 3, replace=False)]}
